@@ -137,7 +137,7 @@ func TestC07(t *testing.T) {
 
 func TestC09(t *testing.T) {
 	RunSeq(t, SeqCheck{
-		Prop: "C09",
+		Prop: "C09", FaultPct: 5, TolerateResidue: true, // "every store state": also what a torn batch leaves (a finished task with a stray claim is still finished work)
 		GenOp: func(rt *rapid.T, w *World, pre *Snapshot, prof Profile) Op {
 			// now and then a command dies inside its log write: prune (dry run and real) must
 			// behave on a log with a torn tail too
@@ -190,7 +190,7 @@ func TestC10(t *testing.T) {
 func TestC14(t *testing.T) {
 	RunSeq(t, SeqCheck{
 		Prop: "C14",
-		Profile: Profile{Name: "epic-references", Weights: weightsWith(map[string]int{"new_task": 26, "set": 36, "new_epic": 10, "prune_yes": 9, "compact": 4, "plan": 4}),
+		Profile: Profile{Name: "epic-references", Weights: weightsWith(map[string]int{"new_task": 26, "set": 36, "new_epic": 10, "prune_yes": 9, "compact": 4, "plan": 4, "sequence": 10}),
 			BadRef: 35, Spoil: 3, Results: 2, MinSteps: 6, MaxSteps: 30, EpicPct: 45, StatePct: 55,
 			StatePool: []string{"doing", "doing", "error", "error", "done", "done", "canceled", "todo", "blocked"}},
 		Rule: "random command histories where --epic / epic is drawn from {live epic, live task, unknown, pruned epic, pruned task, \"\"} in new task and set (three input modes), with plan, prune, compact; non-trivial = a request whose epic id is not a live epic, or a prune/compact while some epic has members" + distinctRule,
@@ -208,6 +208,51 @@ func TestC14(t *testing.T) {
 				}
 				return false
 			})
+		},
+		GenOp: func(rt *rapid.T, w *World, pre *Snapshot, prof Profile) Op {
+			// now and then a dependency between tasks of different containers (two epics, or an
+			// epic and the root): where a task is shown must not depend on what it waits for
+			if w.StepNo >= 3 && pct(rt, 8, "c14.cross") {
+				tasks := pre.Tasks()
+				for tries := 0; tries < 6 && len(tasks) >= 2; tries++ {
+					a, b := tasks[uni(rt, len(tasks), "c14.cross.a")], tasks[uni(rt, len(tasks), "c14.cross.b")]
+					if a.ID != b.ID && a.EpicID != b.EpicID {
+						g := refGen{rt, w, pre}
+						return Op{Kind: "sequence", Refs: []Ref{g.ref(a.ID), g.ref(b.ID)}}
+					}
+				}
+			}
+			return genOp(rt, w, pre, prof)
+		},
+		// "every live task remains visible under its epic (or at the root) in every list
+		// view": the human views are views too
+		AfterStep: func(rt *rapid.T, w *World, h []stepInfo) []Violation {
+			post := h[len(h)-1].Out.Post
+			if post == nil || len(h)%2 != 0 {
+				return nil
+			}
+			var viol []Violation
+			r := Run(Cmd{Args: []string{"list", "--all"}, Dir: w.Root})
+			if !r.OK() {
+				return []Violation{{"C14", "human `list --all` fails: " + clip(r.Stderr, 160)}}
+			}
+			for _, id := range post.SortedIDs() {
+				if !strings.Contains(r.Stdout, id) {
+					it := post.Items[id]
+					viol = append(viol, Violation{"C14", fmt.Sprintf("live %s %s (epic %q, %s) is missing from the human `list --all`", map[bool]string{true: "epic", false: "task"}[it.IsEpic], id, it.EpicID, it.State)})
+				}
+			}
+			for _, it := range post.Tasks() {
+				if it.EpicID == "" || post.Items[it.EpicID] == nil {
+					continue
+				}
+				re := Run(Cmd{Args: []string{"list", "--all", "--epic", it.EpicID}, Dir: w.Root})
+				if re.OK() && !strings.Contains(re.Stdout, it.ID) {
+					viol = append(viol, Violation{"C14", fmt.Sprintf("task %s is not shown under its epic %s by the human `list --all --epic`", it.ID, it.EpicID)})
+				}
+				break
+			}
+			return viol
 		},
 	})
 }
